@@ -519,24 +519,37 @@ def run_session(rundir: str, spec: dict) -> dict:
         else:
             raise ValueError(op)
 
+    def finish() -> dict:
+        end = session.get("end", "close")
+        if end == "close":
+            if manager is not None:
+                manager.database.close()
+                log.ev(e="C", db="identity")
+            if wallet is not None:
+                wallet.close()
+                log.ev(e="C", db="wallet")
+        log.ev(e="E")
+        out = {"py_calls": points.n, "py_trace": points.trace}
+        sys.stdout.write(json.dumps(out))
+        sys.stdout.flush()
+        if end == "abandon":
+            os._exit(0)     # no close(), no interpreter teardown: the -wal file stays as it is
+        return out
+
+    if session.get("loop"):
+        # the same operations issued from inside a running asyncio event loop, all within ONE loop iteration (several
+        # datagrams handled back to back); an abandoned session dies before the loop gets to run anything else
+        import asyncio
+
+        async def in_loop() -> dict:
+            for op in session["ops"]:
+                do(op)
+            return finish()
+        return asyncio.run(in_loop())
+
     for op in session["ops"]:
         do(op)
-
-    end = session.get("end", "close")
-    if end == "close":
-        if manager is not None:
-            manager.database.close()
-            log.ev(e="C", db="identity")
-        if wallet is not None:
-            wallet.close()
-            log.ev(e="C", db="wallet")
-    log.ev(e="E")
-    out = {"py_calls": points.n, "py_trace": points.trace}
-    sys.stdout.write(json.dumps(out))
-    sys.stdout.flush()
-    if end == "abandon":
-        os._exit(0)     # no close(), no interpreter teardown: the -wal file stays as it is
-    return out
+    return finish()
 
 
 # ----------------------------------------------------------------------------------------------------------------
